@@ -73,6 +73,11 @@ def generate(rng, tier):
         cases.append(_case(t, "handwritten"))
     for t in G.nesting_texts(rng):
         cases.append(_case(t, "nesting"))
+    for t in G.pretty_docs(rng, quick):
+        cases.append(_case(t, "pretty-printed", rng.choice(["pool", "simple"])))
+        if rng.random() < 0.5:
+            cut = rng.randrange(0, len(t))
+            cases.append(_case(t[:cut], "pretty-printed-prefix"))
     # every byte value at a token position behind runs of blanks (the vector whitespace classifier takes over after two blanks;
     # 63..65 blanks cross a 64-byte bitmap block): accepted only for whitespace, digits 1-9 and '-'
     for b in range(256):
